@@ -258,6 +258,7 @@ type zzvNet struct {
 	annHi    map[string]uint64
 	pend     map[string]bool
 	gone     map[string]bool
+	rejoin   []string // the link whose connect was the last topology / ageing event
 	preds    []map[string]any
 	predSeen map[string]bool
 }
@@ -660,6 +661,7 @@ func (nw *zzvNet) expire(node, o string, seq uint64) bool {
 }
 
 func (nw *zzvNet) connect(a, b string) {
+	nw.rejoin = []string{a, b}
 	nw.up[zzvLinkKey(a, b)] = true
 	nw.pend[a+">"+b] = true
 	nw.pend[b+">"+a] = true
@@ -685,11 +687,32 @@ func (nw *zzvNet) disconnect(a, b string) {
 	nw.gone[b+">"+a] = true
 	nw.clean = map[string]bool{}
 	nw.everDisc = true
+	nw.rejoin = nil
 }
 
 func (nw *zzvNet) peerGone(n, p string) { // Agent.handlePeerDisconnect
 	m := nw.nodes[n].mgr
 	id := nw.nodes[p].id
+	// the flooder is told first (if it has such a notification), then the routes are removed
+	if x, ok := interface{}(nw.nodes[n].f).(interface{ OnPeerDisconnected(identity.AgentID) }); ok {
+		x.OnPeerDisconnected(id)
+		// announcements that were forgotten may legitimately be processed again
+		for k := range nw.procCnt {
+			if strings.HasPrefix(k, n+"|") {
+				kk := strings.Split(k, "|")
+				seq, _ := strconv.ParseUint(kk[2], 10, 64)
+				if o, ok := nw.nodes[kk[1]]; ok && !nw.nodes[n].f.HasSeen(o.id, seq) {
+					delete(nw.procCnt, k)
+					for fk := range nw.fwdCnt {
+						fp := strings.Split(fk, "|")
+						if fp[0] == n && fp[2] == kk[1] && fp[3] == kk[2] {
+							delete(nw.fwdCnt, fk)
+						}
+					}
+				}
+			}
+		}
+	}
 	m.HandlePeerDisconnect(id)
 	m.HandlePeerDisconnectDomain(id)
 	m.HandlePeerDisconnectForward(id)
@@ -703,9 +726,11 @@ func (nw *zzvNet) ageAll() {
 	nw.aged = true
 	time.Sleep(20 * time.Millisecond)
 	nw.clean = map[string]bool{}
+	nw.rejoin = nil
 }
 
 func (nw *zzvNet) cleanupStale(node string) { // the periodic step of Agent.routeAdvertiseLoop
+	nw.rejoin = nil
 	m := nw.nodes[node].mgr
 	m.CleanupStaleRoutes(time.Since(nw.tAge))
 	m.CleanupStaleDomainRoutes(time.Since(nw.tAge))
@@ -909,6 +934,37 @@ func (nw *zzvNet) checkState(linkCount int) {
 				} else if !fresh {
 					nw.pred("C14", "not-refreshed", fmt.Sprintf("quiescent after an announcement of %s (sequences %d..%d, counter now %d) but the copy of %s/%s at %s was not renewed by it",
 						o, nw.annLo[o]+1, nw.annHi[o], nw.nodes[o].mgr.GetCurrentSequence(), o, rid, name), map[string]any{"node": name, "table": ents})
+				}
+			}
+		}
+	}
+	// C12/C14: a peer that (re)connected holds, at quiescence, every route the other end holds and could give it by
+	// its table replay (the connect being the last topology / ageing event)
+	if quiet && reachOK && len(nw.rejoin) == 2 {
+		for i := 0; i < 2; i++ {
+			n, p := nw.rejoin[i], nw.rejoin[1-i]
+			ne, _ := nw.table(nw.nodes[n])
+			pe, _ := nw.table(nw.nodes[p])
+			givable := map[string]bool{}
+			for _, e := range ne {
+				if _, ok := givable[e.O]; !ok {
+					givable[e.O] = true
+				}
+				if e.O == p || e.Nh == p || zzvHas(e.Path, p) || len(e.Path)+1 > nw.nodes[p].hops || len(e.Path)+1 > 255 {
+					givable[e.O] = false
+				}
+			}
+			for _, e := range ne {
+				if !givable[e.O] {
+					continue
+				}
+				has := false
+				for _, f := range pe {
+					has = has || (f.O == e.O && f.R == e.R)
+				}
+				if !has {
+					nw.pred("C12", "not-resynced", fmt.Sprintf("%s connected to %s and the table replay was delivered, but %s still lacks %s/%s which %s holds via %s",
+						p, n, p, e.O, e.R, n, e.Nh), map[string]any{"node": p, "entry": e})
 				}
 			}
 		}
